@@ -395,5 +395,23 @@ def r11_9(ctx):
          ctx.bad(construct, f"`{ast.unparse(c)}` is used without unescape(): the escapes _escape() wrote stay in the synthetic symbol's value", f.loc(c)))
 
 
+def r11_10(ctx):
+    """R11.10 `load_deprecated=True` means what it says for every file: Kconfig.load_config() hands its arguments on to _load_config()
+    unchanged - the deprecated block of an alternate sdkconfig (`is_main_sdkconfig=False`) is loaded like that of the main one."""
+    repo = ctx.repo
+    f = repo.func(f"{CORE}:Kconfig.load_config")
+    ctx.analysed(f.qual)
+    params = [a.arg for a in f.node.args.args if a.arg != "self"] + [a.arg for a in f.node.args.kwonlyargs]
+    calls = [n for n in ast.walk(f.node) if isinstance(n, ast.Call) and ast.unparse(n.func) == "self._load_config"]
+    if not calls:
+        raise AnchorError("load_config no longer calls _load_config")
+    for i, c in enumerate(calls):
+        construct = f"Kconfig.load_config/_load_config() call #{i + 1} gets the caller's arguments as they are"
+        args = list(c.args) + [k.value for k in c.keywords]
+        changed = [ast.unparse(a) for a in args if not isinstance(a, (ast.Name, ast.Constant)) and any(isinstance(x, ast.Name) and x.id in params for x in ast.walk(a))]
+        (ctx.bad(construct, f"`{changed[0]}` is computed from the arguments: the request of the caller (e.g. load_deprecated) holds for some files only", f.loc(c))
+         if changed else ctx.ok(construct, f.loc(c)))
+
+
 def rules():
-    return [("R11.9", r11_9, 1), ("R11.8", r11_8, 1), ("R11.7", r11_7, 2), ("R11.6", r11_6, 6), ("R11.1", r11_1, 7), ("R11.2", r11_2, 2), ("R11.3", r11_3, 4), ("R11.4", r11_4, 6), ("R11.5", r11_5, 3)]
+    return [("R11.10", r11_10, 1), ("R11.9", r11_9, 1), ("R11.8", r11_8, 1), ("R11.7", r11_7, 2), ("R11.6", r11_6, 6), ("R11.1", r11_1, 7), ("R11.2", r11_2, 2), ("R11.3", r11_3, 4), ("R11.4", r11_4, 6), ("R11.5", r11_5, 3)]
